@@ -9,7 +9,7 @@ from progcorpus import *  # noqa
 from gen_subs import gen_sub_program
 import c02 as C02
 
-PROOF_FILES = []
+PROOF_FILES = ["Proofs/OptimizeSem.v", "Proofs/OptimizeCorrect.v", "Proofs/OptimizeOptions.v"]
 
 
 def reserved_scratch(res, builder):
@@ -20,34 +20,56 @@ def reserved_scratch(res, builder):
 
 
 def store_dense_recipe(rng, version, app):
-    """store/load-dense programs: adjacent store;load pairs, repeated stores, loads in other blocks, requested ids"""
-    g = Gen(rng, version, app, size=rng.choice([10, 20, 40]))
-    keys = ["d%d" % i for i in range(rng.choice([1, 2, 3, 4]))]
+    """store/load-dense programs over a few variables: segments of stores / uses / adjacent store;load pairs,
+    separated by control flow so that they end up in different blocks; some variables have requested ids, some are
+    passed by reference or accessed through a DynamicScratchVar-style index"""
+    g = Gen(rng, version, app, size=rng.choice([6, 12, 25]))
+    keys = ["d%d" % i for i in range(rng.choice([1, 2, 2, 3, 4]))]
     for k in keys:
         g.vars[k] = "u"
+    ld = lambda k: ("op", "load", (("slot", k),), "u", ())
+
+    def use(k):
+        if app and version >= 5 and rng.random() < 0.7:
+            return ("op", "log", (), "n", (("op", "itob", (), "b", (ld(k),)),))
+        return ("op", "pop", (), "n", (ld(k),))
+
+    def segment():
+        out = []
+        for _ in range(rng.choice([1, 2, 3, 4])):
+            k = rng.choice(keys)
+            kind = rng.choice(["pair", "pair", "pair", "store", "use", "use2", "index"])
+            if kind == "pair":
+                out.append(("op", "store", (("slot", k),), "n", (g.expr("u", 1),)))
+                out.append(rng.choice([use(k), ("op", "store", (("slot", rng.choice(keys)),), "n", (("nary", "+", "u", (ld(k), I(1))),))]))
+            elif kind == "store":
+                out.append(("op", "store", (("slot", k),), "n", (g.expr("u", 1),)))
+            elif kind == "use":
+                out.append(use(k))
+            elif kind == "use2":
+                out.append(("op", "pop", (), "n", (("nary", "+", "u", (ld(k), ld(k))),)))
+            elif version >= 5:
+                # read the variable through its slot number (what DynamicScratchVar / by-reference passing do)
+                out.append(("op", "pop", (), "n", (("op", "loads", (), "u", (("op", "int", (("slot", k),), "u", ()),)),)))
+        return out
+
     stmts = []
-    for _ in range(rng.choice([3, 5, 8])):
-        k = rng.choice(keys)
-        ld = ("op", "load", (("slot", k),), "u", ())
-        kind = rng.choice(["pair", "pair", "store", "use", "if", "loop"])
-        if kind == "pair":
-            stmts.append(("op", "store", (("slot", k),), "n", (g.expr("u", 2),)))
-            stmts.append(("op", "pop", (), "n", (("nary", "+", "u", (ld, I(1))),)) if rng.random() < 0.5 else
-                         ("op", "store", (("slot", rng.choice(keys)),), "n", (ld,)))
-        elif kind == "store":
-            stmts.append(("op", "store", (("slot", k),), "n", (g.expr("u", 1),)))
-        elif kind == "use":
-            if app and version >= 5:
-                stmts.append(("op", "log", (), "n", (("op", "itob", (), "b", (ld,)),)))
-            else:
-                stmts.append(("op", "pop", (), "n", (ld,)))
-        elif kind == "if":
-            stmts.append(("if", g.expr("u", 1), ("op", "store", (("slot", k),), "n", (g.expr("u", 1),))))
+    for _ in range(rng.choice([2, 3, 4])):
+        seg = segment()
+        shape = rng.choice(["plain", "if", "ifelse", "loop", "plain"])
+        if shape == "plain":
+            stmts += seg
+        elif shape == "if":
+            stmts.append(("if", g.expr("u", 1), ("seq",) + tuple(seg)))
+        elif shape == "ifelse":
+            stmts.append(("if", g.expr("u", 1), ("seq",) + tuple(seg), ("seq",) + tuple(segment())))
         else:
-            stmts.append(g.stmt(2, False))
-    init = tuple(("op", "store", (("slot", k),), "n", (I(0),)) for k in keys if rng.random() < 0.8)
-    fin = ("return", ("op", "load", (("slot", rng.choice(keys)),), "u", ())) if rng.random() < 0.5 else ("exit", I(1))
-    reserve = {k: rng.randrange(0, 256) for k in keys if rng.random() < 0.25}
+            i = g.new_var("u")
+            stmts.append(("for", ("op", "store", (("slot", i),), "n", (I(0),)), ("op", "<", (), "u", (ld(i), I(rng.choice([0, 1, 2])))),
+                          ("op", "store", (("slot", i),), "n", (("nary", "+", "u", (ld(i), I(1))),)), ("seq",) + tuple(seg)))
+    init = tuple(("op", "store", (("slot", k),), "n", (I(0),)) for k in g.vars if rng.random() < 0.85)
+    fin = ("return", ld(rng.choice(keys))) if rng.random() < 0.5 else ("exit", I(1))
+    reserve = {k: rng.randrange(0, 256) for k in keys if rng.random() < 0.3}
     if len(set(reserve.values())) != len(reserve):
         reserve = {}
 
@@ -79,7 +101,7 @@ def main(argv):
     def variants_of(recipe, prepare, app, has_subs):
         """compile one program under every option setting / version at which it compiles"""
         out = []
-        versions = [4, 6, 8, 9, 10] if has_subs else [3, 6, 8, 9, 10]
+        versions = [4, 6, 8, 9, 10] if has_subs else [6, 9]
         if thorough:
             versions = list(range(4 if has_subs else 2, 11))
         for v in versions:
@@ -137,10 +159,10 @@ def main(argv):
             else:
                 diffs.append({"kind": "differential", "a": c_on.describe(), "b": c_off.describe(), "obs_a": repr(a)[:800], "obs_b": repr(b)[:800]})
 
-    n = 400 if thorough else 45
+    n = 1200 if thorough else 150
     for i in range(n):
         app = rng.random() < 0.8
-        kind = rng.choice(["dense", "dense", "main", "subs"])
+        kind = rng.choice(["dense"] * 7 + ["main", "subs"])
         if kind == "subs":
             prepare, recipe, _ = gen_sub_program(rng, 6, app)
             vs = variants_of(recipe, prepare, app, True)
